@@ -43,20 +43,22 @@ Proof. exact merge_ok_intro. Qed.
 Print Assumptions C12_checker_step_complete.
 
 (* Parsing only adds: no quad of any graph is lost or changed by a parse call - for every
-   label discipline and every supply - unless the call is an N-Quads / HexTuples call made
-   while <urn:x-rdflib:default> holds triples (finding F12). *)
-Theorem C12_only_adds : forall fr st d,
-  (wipes (d_fmt d) = true -> forall q, In q st -> q_g q <> DS_DEFAULT) ->
-  incl st (parse_call fr st d).
+   syntax, every label discipline and every supply. *)
+Theorem C12_only_adds : forall fr st d, incl st (parse_call fr st d).
 Proof. exact parse_call_incl. Qed.
 Print Assumptions C12_only_adds.
+
+(* ... hence over a whole sequence of calls, without any side condition *)
+Theorem C12_only_adds_run : forall fresh ds j st now,
+  In now (run fresh j st ds) -> incl st now.
+Proof. exact run_incl. Qed.
+Print Assumptions C12_only_adds_run.
 
 (* One call is one substitution: whatever the discipline, a label denotes ONE node in all
    statements and all named graphs of the document. *)
 Theorem C12_one_node_per_label : forall fr st d q,
-  (wipes (d_fmt d) = true -> forall q, In q st -> q_g q <> DS_DEFAULT) ->
-  (In q (parse_call fr st d) <->
-   In q st \/ In q (map (sub_stmt (node_fn fr (disc_of (d_fmt d))) (d_target d)) (d_stmts d))).
+  In q (parse_call fr st d) <->
+  In q st \/ In q (map (sub_stmt (node_fn fr (disc_of (d_fmt d))) (d_target d)) (d_stmts d)).
 Proof. exact parse_call_In. Qed.
 Print Assumptions C12_one_node_per_label.
 
@@ -100,12 +102,18 @@ Theorem C12_labels_scoped_refuted :
 Proof. exists w_f9. exact f9_witness. Qed.
 Print Assumptions C12_labels_scoped_refuted.
 
-(* Finding F12: an N-Quads (or HexTuples) call deletes what <urn:x-rdflib:default> held. *)
-Theorem C12_only_adds_refuted :
-  exists c, wf c /\ kf c = 2%N /\ spec_ok c (model_obs c) = false /\
-    exists q, In q (c_init c) /\ ~ In q (last (model_obs c) []).
-Proof. exists w_f12. exact f12_witness. Qed.
-Print Assumptions C12_only_adds_refuted.
+(* Finding F12 (FIXED by commit 57c67bab): the code as it was before the repair
+   ([parse_call_prefix]: N-Quads / HexTuples emptied <urn:x-rdflib:default>) lost a quad that
+   the repaired code keeps; the old witness is now in scope of the theorem and accepted. *)
+Theorem C12_prefix_only_adds_refuted :
+  exists fr st d q, In q st /\ ~ In q (parse_call_prefix fr st d) /\ In q (parse_call fr st d).
+Proof. exact f12_prefix_witness. Qed.
+Print Assumptions C12_prefix_only_adds_refuted.
+
+Theorem C12_f12_witness_now_passes :
+  wf w_f12 /\ kf w_f12 = 0%N /\ spec_ok w_f12 (model_obs w_f12) = true.
+Proof. exact f12_fixed. Qed.
+Print Assumptions C12_f12_witness_now_passes.
 
 (* the supply of the executable model satisfies the hypotheses *)
 Theorem C12_std_supply_ok : supply_ok std_fresh.
